@@ -1,18 +1,60 @@
 ----------------------------- MODULE SentinelRoute -----------------------------
 (* The routing classes of the sentinel client (Routing.tla, sentinel part of C21) as cases for the driver: client mode
    x API x SendToReplicas value per command -> class of the node that must receive the call ("m" the verified master,
-   "r" the verified replica). *)
+   "r" the verified replica).
+
+   Round 2: a call is not always one transmission.  With ClientOption.ConnLifetime the connection picked for a call
+   can reach its lifetime while the call is in flight (`fault.kind = "expire"`): the replies of the first `after`
+   commands arrived, the rest of the call comes back as errConnExpired and sentinel.go sends that rest again
+   (Do / DoCache: the command itself).  A transport failure (`"cut"`) makes the retry handler send a retryable call
+   again as a whole.  `Sends` lists every transmission of the call with the class of connection it goes to.  The rule
+   (C21: "a batch goes to a replica only if SendToReplicas is true for every command in the batch") is about the call:
+   the routing decision is made once, for all commands of the call, and every later transmission of a part of it stays
+   in that class.  A read-only tail of a batch that did not opt in as a whole must not be re-routed to the replica
+   (it would also lose read-your-writes inside one pipeline). *)
 EXTENDS Routing, TLC, Json
 
-VARIABLES smode, api, flags
-sroutev == <<smode, api, flags>>
-SRouteInit == smode \in {"m", "r", "b"} /\ api \in Apis /\ flags \in FlagsOf(api)
+CONSTANT BugRepickRemainder   \* the lifetime recovery picks the connection again, looking at the re-sent rest only
+
+VARIABLES smode, api, flags,
+          lft,      \* ConnLifetime is set
+          fault     \* what happens to the first transmission: [kind: none | expire | cut, after: replies delivered before]
+sroutev == <<smode, api, flags, lft, fault>>
+
+Flags3 == {<<a, b, c>> : a \in BOOLEAN, b \in BOOLEAN, c \in BOOLEAN}
+\* the calls that travel on the shared (pipelined) connection: the ones with a recovery path in sentinel.go
+Pipelined(a) == a \in {"Do", "DoMulti", "DoCache", "DoMultiCache"}
+NoFault == [kind |-> "none", after |-> 0]
+FaultsOf(a, f) == IF ~Pipelined(a) THEN {NoFault}
+                  ELSE {NoFault} \cup {[kind |-> "expire", after |-> k] : k \in 0..(Len(f) - 1)}
+                       \cup (IF Len(f) <= 2 THEN {[kind |-> "cut", after |-> k] : k \in 0..(Len(f) - 1)} ELSE {})
+\* batches of three commands (write prefix + read-only tail of two, ...) only where the predicate matters
+LftFlagsOf(m, a) == FlagsOf(a) \cup (IF m = "b" /\ a \in {"DoMulti", "DoMultiCache"} THEN Flags3 ELSE {})
+
+SRouteInit == /\ smode \in {"m", "r", "b"} /\ api \in Apis
+              /\ \/ lft = FALSE /\ flags \in FlagsOf(api) /\ fault = NoFault
+                 \/ lft = TRUE /\ Pipelined(api) /\ flags \in LftFlagsOf(smode, api) /\ fault \in FaultsOf(api, flags)
 SRouteSpec == SRouteInit /\ [][UNCHANGED sroutev]_sroutev
+
+\* ---- the transmissions of the call (sentinel.go Do / DoMulti / DoCache / DoMultiCache)
+Rest(f, k) == SubSeq(f, k + 1, Len(f))
+Class == SentinelClass(smode, api, flags)
+Sends == IF fault.kind = "none" THEN <<[from |-> 1, cls |-> Class]>>
+         ELSE IF fault.kind = "expire"
+         THEN <<[from |-> 1, cls |-> Class],
+                [from |-> fault.after + 1,
+                 cls |-> IF BugRepickRemainder THEN SentinelClass(smode, api, Rest(flags, fault.after)) ELSE Class]>>
+         ELSE <<[from |-> 1, cls |-> Class], [from |-> 1, cls |-> Class]>>   \* retried as a whole
+
+OptedIn == smode = "r" \/ (smode = "b" /\ api # "Dedicated" /\ AllTrue(flags))
+
 GenSRoute == PrintT(<<"CASE", ToJson([kind |-> "route", client |-> "sentinel", nrep |-> 2, redirect |-> FALSE, pred |-> smode = "b",
                                       sel |-> "none", az |-> FALSE, api |-> api, flags |-> flags, construct |-> "ok",
-                                      optedin |-> SentinelClass(smode, api, flags) = "r",
-                                      target |-> <<SentinelClass(smode, api, flags)>>, mode |-> smode])>>)
-\* the class rule itself: replica class only for ReplicaOnly, or when every command of the call opted in
-SentinelReplicaOnlyWhenOptedIn ==
-    SentinelClass(smode, api, flags) = "r" => (smode = "r" \/ (smode = "b" /\ AllTrue(flags)))
+                                      optedin |-> OptedIn, target |-> <<Class>>, mode |-> smode,
+                                      lft |-> lft, fault |-> fault.kind, after |-> fault.after, sends |-> Sends])>>)
+\* the class rule itself: replica class only for ReplicaOnly, or when every command of the call opted in -- for
+\* every transmission of the call or of a part of it
+SentinelReplicaOnlyWhenOptedIn == \A i \in DOMAIN Sends : Sends[i].cls = "r" => OptedIn
+\* a call is never split between the master and the replica connection
+WholeCallOneClass == \A i \in DOMAIN Sends : Sends[i].cls = Class
 =============================================================================
